@@ -54,10 +54,20 @@ def conv_model(aff, rows, u, v, x):
 
 
 def affine_sub(chk, rng, aff, rows, wid, tname, fixed=None, extra=None,
-               consistent=True):
+               consistent=True, scaled=()):
     units = list(aff)
     if fixed:
         u, x, v, want_fixed = fixed
+    elif scaled and rng.random() < 0.35:
+        # a unit declared as a multiple of another unit of this type: no
+        # table row names it, so nothing converts to or from it (a scale
+        # alone is no conversion in a type without reference unit)
+        u = rng.choice(list(scaled))
+        v = rng.choice(units + list(scaled))
+        if rng.random() < 0.5:
+            u, v = v, u
+        x = rand_fraction(rng, small=True)
+        want_fixed = None
     else:
         u, v = rng.choice(units), rng.choice(units)
         x = rand_fraction(rng, small=rng.random() < 0.7)
@@ -108,6 +118,8 @@ def affine_sub(chk, rng, aff, rows, wid, tname, fixed=None, extra=None,
         bad = []
         if want is None:
             chk.count("missing pairs")
+            if u in scaled or v in scaled:
+                chk.count("pairs with a scaled unit no row names")
             if not is_exc(r, "UnitConversionError"):
                 bad.append("no applicable row: expected UnitConversionError, "
                            "got %s" % brief(r))
@@ -214,6 +226,14 @@ def synthetic_world(chk, rng, wi):
     units = ["t%d" % i for i in range(nu)]
     for s in units:
         plan.append(Decl("plain", t=tname, sym=s))
+    scaled = []
+    if rng.random() < 0.5:
+        for j in range(rng.randint(1, 2)):
+            sym = "k%d" % j
+            plan.append(Decl("scaled", t=tname, sym=sym,
+                             k=rng.choice([F(1, 1000), F(1000), F(3)]),
+                             parent=rng.choice(units + scaled)))
+            scaled.append(sym)
     for d in plan:
         d.apply(w)
     aff = {units[0]: (F(1), F(0))}
@@ -242,6 +262,8 @@ def synthetic_world(chk, rng, wi):
             elif r < 0.72:
                 del rows[(u, v)]
                 del rows[(v, u)]
+    for s_ in scaled:
+        aff[s_] = (F(1), F(0))      # only ever used for s_ against itself
     consistent = rng.random() < 0.75
     if not consistent:
         # a user table whose two directions disagree: each tabulated
@@ -322,7 +344,7 @@ def synthetic_world(chk, rng, wi):
         subs.append(affine_sub(chk, rng, aff, dict(rows), wid, tname,
                                extra=dict(form=form,
                                           rows=[list(k) for k in rows]),
-                               consistent=consistent))
+                               consistent=consistent, scaled=scaled))
     return world_program(chk, plan, subs, wid)
 
 
@@ -338,7 +360,8 @@ def run(chk, R, tier, seed):
               "conversions whose result is zero",
               "unregistered converter tabulating the missing pairs|"
               "never-registered",
-              "unregistered converter tabulating the missing pairs|removed"):
+              "unregistered converter tabulating the missing pairs|removed",
+              "pairs with a scaled unit no row names"):
         chk.require(c)
     wrap = lambda jd: (lambda obs, rec, case: jd(obs))      # noqa: E731
     rows = {(u, v) for u in TEMP for v in TEMP if u != v}
